@@ -18,8 +18,15 @@ def main():
     batch = sys.argv[1].rstrip('/')
     ids = sys.argv[2:] or sorted(d for d in os.listdir(batch) if re.fullmatch(r'C\d\d_\d', d))
     # the demos reference the seeding agent's worktree path
-    any_toml = open(os.path.join(batch, ids[0], 'demo', 'Cargo.toml')).read()
-    wt = re.search(r'path\s*=\s*"(/tmp/[^"]+)"', any_toml).group(1)
+    wt = None
+    for sid in ids:
+        for dp, dn, fn in os.walk(os.path.join(batch, sid, 'demo')):
+            for x in fn:
+                if x.endswith(('.toml', '.rs', '.sh')):
+                    m = re.search(r'(/tmp/seedwt_[A-Za-z0-9_]+)', open(os.path.join(dp, x), errors='replace').read())
+                    if m:
+                        wt = m.group(1)
+    assert wt, 'cannot find the worktree path the demos reference'
     tgt = os.path.join(batch, 'target')
     if os.path.exists(wt):
         sh(['git', '-C', '/repo', 'worktree', 'remove', '--force', wt])
